@@ -204,6 +204,11 @@ def run(ctx):
                     continue
                 v = strip_sym(sy_.operand(op_))
                 g_ = here + (gates(b, bb_) if bb_ != o[0].bb else [])
+                if any("('arg', 1" in repr(dd) for dd, lab in g_):
+                    # whether a position is retained never depends on the VALUE pushed there ("for any value": a NaN is
+                    # retained with probability capacity/n like everything else)
+                    okf, whyf = False, "whether a slot is written depends on the pushed value itself: positions holding such values are retained with a different probability than the others"
+                    continue
                 if "fastrand" in sym_str(v):
                     in_range = any(lab is True and lt_len(dd, "fastrand") for dd, lab in g_)
                     for f_ in filters:
@@ -384,6 +389,12 @@ def run(ctx):
         elif fl_.get("ty", "").endswith("reservoir::Reservoir"):
             sides.append(fl_["name"])
     FLAG = f"'{flag_f}'"
+    if pushf:
+        # one push per value: the wrapper hands the value to ONE side once (a retry after a concurrent flip duplicates
+        # a value that was not lost — two consecutive drains count it)
+        rp = [c for c in nonforeign_calls(pushf) if c.fn is pushf and c.is_("Reservoir::push")]
+        loopy = [c for c in rp if in_cycle(pushf.body, c.bb)]
+        chk.ob("C16.b", f"{pushf.path} [one push per value]", bool(rp) and not loopy, "Reservoir::push is not called in a loop" if rp and not loopy else "the value can be pushed more than once (Reservoir::push inside a retry loop): a value is counted by two drains", (loopy or rp or [pushf])[0].loc(), nontrivial=False)
     if cons and pushf:
         # the value of the flag before the flip: what was loaded, or what a flipping read-modify-write returned
         pt = side_table(pushf, lambda dd: sym_is_call(dd, "load") and FLAG in repr(dd))
